@@ -67,6 +67,15 @@ Lemma fr_init_add hpf s g v e : InvD hpf s ->
   snd (init_add all_fixed s hpf g v) = Raise e -> fst (init_add all_fixed s hpf g v) = s.
 Proof. intros HD. unfold init_add. destruct (vname s v); [apply fr_init_setitem; assumption|fr]. Qed.
 
+Lemma fr_init_update hpf s g kvs e :
+  snd (init_update all_fixed s hpf g kvs) = Raise e -> fst (init_update all_fixed s hpf g kvs) = s.
+Proof. unfold init_update. destruct (init_update_seq _ _ _ _ _) as [s' r]. destruct r; cbn [all_fixed]; fr. Qed.
+Lemma fr_init_popitem s g e : snd (init_popitem s g) = Raise e -> fst (init_popitem s g) = s.
+Proof. unfold init_popitem. destruct (inits s g) as [|[k v] t]; [fr|]. apply fr_init_delitem. Qed.
+Lemma fr_init_setdefault hpf s g key v e : InvD hpf s ->
+  snd (init_setdefault all_fixed s hpf g key v) = Raise e -> fst (init_setdefault all_fixed s hpf g key v) = s.
+Proof. intros HD. unfold init_setdefault. destruct (init_get _ _); [fr|]. apply fr_init_setitem. assumption. Qed.
+
 Lemma fr_vset_name hpf s v nm e : InvD hpf s ->
   snd (vset_name all_fixed s hpf v nm) = Raise e -> fst (vset_name all_fixed s hpf v nm) = s.
 Proof.
@@ -135,13 +144,13 @@ Ltac lifted L := unfold lift_ow; intros [= <- Hr]; erewrite L; [apply with_ow_id
 Ltac chainF := repeat match goal with
   | |- (if ?b then R ?h ?e else _) = _ -> _ => destruct b; [intros [= <- _]; reflexivity|] end.
 
-Theorem frame_step h o h' e : in_scope o = true -> Inv h -> step all_fixed h o = (h', Raise e) -> h' = h.
+Theorem frame_step h o h' e : Inv h -> step all_fixed h o = (h', Raise e) -> h' = h.
 Proof.
-  intros Hsc (_ & _ & HD). destruct o; cbn [step].
+  intros (_ & _ & HD). destruct o; cbn [step].
   - unfold new_value. destruct (blank_value h v); intros [= <- ?]; try discriminate; reflexivity.
   - unfold new_node. chainF. discriminate.
-  - destruct gi; [|discriminate]. destruct go; [|discriminate]. destruct ginit; [|discriminate]. destruct ns; [|discriminate].
-    unfold graph_new. destruct (negb (blank_graph h g)); [intros [= <- _]; reflexivity|]. cbn. discriminate.
+  - unfold graph_new. destruct (negb (blank_graph h g)); [intros [= <- _]; reflexivity|]. cbn [all_fixed].
+    destruct (graph_new_reject _ _ _ _ _); [intros [= <- _]; reflexivity|discriminate].
   - unfold g_append. destruct (node_check _ _ _); [discriminate|intros [= <- _]; reflexivity].
   - unfold g_extend. destruct (forallb _ _); [discriminate|intros [= <- _]; reflexivity].
   - unfold g_insert. destruct (_ && _); [discriminate|intros [= <- _]; reflexivity].
@@ -151,6 +160,8 @@ Proof.
   - destruct (ngraph (hng h) n); [|intros [= <- _]; reflexivity].
     unfold g_insert. destruct (_ && _); [discriminate|intros [= <- _]; reflexivity].
   - unfold g_remove. destruct (forallb _ _); [discriminate|intros [= <- _]; reflexivity].
+  - unfold g_sort. destruct out as [orders|]; [|intros [= <- _]; reflexivity].
+    destruct (sort_valid h orders); [discriminate|intros [= <- _]; reflexivity].
   - unfold n_replace_input. destruct (_ || _)%bool; [intros [= <- _]; reflexivity|discriminate].
   - unfold n_resize_inputs. destruct (_ =? _)%Z; [discriminate|].
     destruct (_ <? _)%Z; [intros [= <- _]; reflexivity|]. destruct (_ <? _); discriminate.
@@ -180,4 +191,8 @@ Proof.
   - lifted fr_init_delitem.
   - lifted fr_init_add.
   - unfold lift_ow, init_clear. discriminate.
+  - lifted fr_init_popitem.
+  - lifted fr_init_update.
+  - lifted fr_init_setdefault.
+  - unfold lift_ow, init_ior. intros [= <- _]. apply with_ow_id.
 Qed.
